@@ -146,22 +146,16 @@ Build(c) ==
          IF p = <<>> THEN root
          ELSE LET i == CHOOSE j \in DOMAIN K : K[j].a = Head(p) IN Sub(i)[Tail(p)]]
 
-(* recreate_network() of the node at q: the children listed in `rebuild' are *)
-(* replaced by newly constructed ones.  keep = TRUE: a new child offers only *)
-(* what the replaced one still offered (both readings are accepted).         *)
-RECURSIVE RebuildFrom(_, _, _, _)
-RebuildFrom(T, q, as, keep) ==
-  IF as = <<>> THEN T
-  ELSE LET a  == Head(as)
-           K  == CHOOSE e \in Rng(Cls(T[q].cls).kids) : e.a = a
-           S0 == DisableTree(Build(K.c), <<>>, Rng(K.pre))
-           old(r) == (q \o <<a>>) \o r
-           S  == IF ~keep THEN S0
-                 ELSE [r \in DOMAIN S0 |->
-                         IF old(r) \in DOMAIN T /\ T[old(r)].cls = S0[r].cls
-                         THEN [S0[r] EXCEPT !.raw = [k \in Kinds |-> @[k] \cap T[old(r)].raw[k]]]
-                         ELSE S0[r]]
-       IN  RebuildFrom(AssignTree(T, q, a, S), q, Tail(as), keep)
+(* recreate_network() of the node at q: the children listed in `rebuild' are  *)
+(* replaced by newly constructed modules of the same classes.  Applying a      *)
+(* mutation does not change which mutations are on offer: the new children     *)
+(* offer exactly what the replaced ones offered (in particular what the        *)
+(* constructor or the user disabled stays disabled); they have not been        *)
+(* mutated yet (last_mutation_attr None).                                      *)
+Rebuild(T, q) ==
+  LET A == Rng(Cls(T[q].cls).rebuild) IN
+  [r \in DOMAIN T |->
+     IF \E a \in A : IsPrefix(q \o <<a>>, r) THEN [T[r] EXCEPT !.last = None] ELSE T[r]]
 Rebuilds(c) == Cls(c).rebuild # <<>>
 
 ---------------------------------------------------------------------------
@@ -177,7 +171,7 @@ MaxHopsOf(T, p, m) == Len(FbSeq(T, p \o Front(m), Last(m), 3)) - 1
 
 (* outermost call of the registered name m on the node at p, the bodies     *)
 (* deciding to fall back h times                                            *)
-CallResult(T, p, m, h, keep) ==
+CallResult(T, p, m, h) ==
   LET S      == FbSeq(T, p \o Front(m), Last(m), 3)
       hopOK(i) == Fb(T[S[i].q].cls, S[i].x) \in RegAll(T, S[i].q)
       brk    == {i \in 1..h : ~hopOK(i)}
@@ -188,7 +182,7 @@ CallResult(T, p, m, h, keep) ==
                T1 == [r \in DOMAIN T |->
                         IF r \in thru(qa) THEN [T[r] EXCEPT !.last = Drop(qa, Len(r)) \o <<xa>>]
                         ELSE T[r]]
-           IN  [tree |-> RebuildFrom(T1, qa, Cls(T[qa].cls).rebuild, keep),
+           IN  [tree |-> Rebuild(T1, qa),
                 recr |-> {qa}, hooks |-> thru(qa), ret |-> Drop(qa, Len(p)) \o <<xa>>, owner |-> qa]
       ELSE LET qb == S[Min(brk)].q
            IN  [tree |-> [r \in DOMAIN T |-> IF r \in thru(qb) THEN [T[r] EXCEPT !.last = None] ELSE T[r]],
@@ -227,16 +221,15 @@ Init == \E c \in RootClasses : InitWith(MCCat, MCSub, c)
 Callable(t, p) == Live(trees[t]) /\ p \in DOMAIN trees[t] /\ ~Container(trees[t], p)
                   /\ (DirectCalls \/ p = <<>>)
 
-Call(t, p, m, h, keep) ==
+Call(t, p, m, h) ==
   /\ Callable(t, p)
   /\ m \in RegAll(trees[t], p)
   /\ h \in 0..MaxHopsOf(trees[t], p, m)
-  /\ LET r == CallResult(trees[t], p, m, h, keep) IN
-       /\ keep => (r.ret # None /\ Rebuilds(trees[t][r.owner].cls))
+  /\ LET r == CallResult(trees[t], p, m, h) IN
        /\ trees' = [trees EXCEPT ![t] = r.tree]
        /\ out' = [recr |-> {<<t, q>> : q \in r.recr}, hooks |-> {<<t, q>> : q \in r.hooks},
                   ret |-> r.ret, raised |-> ""]
-  /\ act' = [op |-> "call", t |-> t, p |-> p, m |-> m, h |-> h, keep |-> keep]
+  /\ act' = [op |-> "call", t |-> t, p |-> p, m |-> m, h |-> h]
   /\ steps' = steps + 1
   /\ UNCHANGED <<cat, sub>>
 
@@ -298,25 +291,27 @@ Clone ==
   /\ steps' = steps + 1
   /\ UNCHANGED <<cat, sub>>
 
-AllPaths == UNION {DOMAIN trees[t] : t \in 1..2}
-AllNames == UNION {UNION {RegAll(trees[t], p) \cup Known(trees[t], p) : p \in DOMAIN trees[t]} : t \in {t \in 1..2 : Live(trees[t])}}
+LiveTrees == {t \in 1..2 : Live(trees[t])}
+Nodes(t)  == DOMAIN trees[t]
 
-Next ==
-  \/ \E t \in 1..2, p \in AllPaths, m \in AllNames, h \in 0..3, keep \in BOOLEAN : Call(t, p, m, h, keep)
-  \/ \E t \in 1..2, p \in AllPaths, m \in AllNames, r \in BOOLEAN : CallDisabled(t, p, m, r)
-  \/ \E t \in 1..2, p \in AllPaths, pl \in 0..2, m \in AllNames \cup {None} : Sample(t, p, pl, m)
-  \/ \E t \in 1..2, p \in AllPaths, Ks \in SUBSET Kinds : Disable(t, p, Ks)
-  \/ \E t \in 1..2, p \in AllPaths, s \in FilterStrs : Filter(t, p, s)
-  \/ \E t \in 1..2, sp \in AssignSpecs : Assign(t, sp.a, sp.c)
-  \/ Clone
+CallAny     == \E t \in LiveTrees : \E p \in Nodes(t) : \E m \in RegAll(trees[t], p) :
+                 \E h \in 0..MaxHopsOf(trees[t], p, m) : Call(t, p, m, h)
+CallDisAny  == \E t \in LiveTrees : \E p \in Nodes(t) : \E m \in Known(trees[t], p), r \in BOOLEAN : CallDisabled(t, p, m, r)
+SampleAny   == \E t \in LiveTrees : \E p \in Nodes(t), pl \in 0..2 : \E m \in RegAll(trees[t], p) \cup {None} : Sample(t, p, pl, m)
+DisableAny  == \E t \in LiveTrees : \E p \in Nodes(t), Ks \in {{"L"}, {"N"}, {"L", "N"}} : Disable(t, p, Ks)
+FilterAny   == \E t \in LiveTrees : \E p \in Nodes(t), s \in FilterStrs : Filter(t, p, s)
+AssignAny   == \E t \in LiveTrees, sp \in AssignSpecs : Assign(t, sp.a, sp.c)
+
+(* sampling changes nothing: the model-checked relation leaves it out (SampleLaw is a state invariant), the dumped one has it *)
+NextCore == CallAny \/ CallDisAny \/ DisableAny \/ FilterAny \/ AssignAny \/ Clone
+Next     == NextCore \/ SampleAny
 
 Spec == Init /\ [][Next]_vars
+SpecCore == Init /\ [][NextCore]_vars
 Bound == steps <= MaxSteps
 
 ---------------------------------------------------------------------------
 (* Invariants: the promises, stated without reference to how raw is kept.  *)
-LiveTrees == {t \in 1..2 : Live(trees[t])}
-
 (* every tree is closed under parents *)
 Shape == \A t \in LiveTrees : \A p \in DOMAIN trees[t] : p = <<>> \/ Front(p) \in DOMAIN trees[t]
 
@@ -340,10 +335,27 @@ NoPhantom ==
 (* R6: at most one module is recreated per outermost call, and only by a call *)
 RecreateOnce == Cardinality(out.recr) <= 1 /\ (out.recr # {} => act.op = "call")
 
-(* R5 *)
+(* R5: the law sample_mutation_method draws from, for every node and every new_layer_prob in {0, 1/2, 1}:   *)
+(* a probability distribution over exactly the registered names; layer methods together weigh new_layer_prob *)
+(* when both kinds are on offer; equal weights inside a kind                                                *)
+RECURSIVE SumNum(_, _)
+SumNum(W, S) == IF S = {} THEN 0 ELSE LET m == CHOOSE x \in S : TRUE IN W[m][1] + SumNum(W, S \ {m})
+SampleLaw ==
+  \A t \in LiveTrees : \A p \in DOMAIN trees[t] : \A pl \in 0..2 :
+    LET T == trees[t]
+        W == Weights(T, p, pl)
+        RL == Reg(T, p, "L")
+        RN == Reg(T, p, "N")
+    IN  (~Container(T, p) /\ RL \cup RN # {}) =>
+          /\ DOMAIN W = RL \cup RN
+          /\ \A m \in DOMAIN W : \A n \in DOMAIN W : W[m][2] = W[n][2] /\ W[m][2] > 0
+          /\ SumNum(W, DOMAIN W) = W[CHOOSE m \in DOMAIN W : TRUE][2]
+          /\ (RL # {} /\ RN # {}) => 2 * SumNum(W, RL) = pl * W[CHOOSE m \in RL : TRUE][2]
+          /\ \A k \in Kinds : \A m \in Reg(T, p, k) : \A n \in Reg(T, p, k) : W[m] = W[n]
+(* what a draw may return *)
 SampleSound ==
   act.op = "sample" =>
-    LET T == trees[act.t]  W == Weights(T, act.p, act.pl) IN
+    LET T == trees[act.t] IN
       IF out.raised # "" THEN RegAll(T, act.p) = {}
       ELSE /\ out.ret \in RegAll(T, act.p)
            /\ (act.pl = 2 /\ Reg(T, act.p, "L") # {}) => out.ret \in Reg(T, act.p, "L")
@@ -389,8 +401,7 @@ CallTracked ==
               /\ \A r \in DOMAIN T : (IsPrefix(p, r) /\ IsPrefix(r, p \o Front(out'.ret)) /\ ~Container(T, r))
                     => T2[r].last = Drop(p \o out'.ret, Len(r))
          /\ out'.ret = None => out'.recr = {}
-         /\ LET rebuilt(r) == out'.ret # None /\ Rebuilds(T[p \o Front(out'.ret)].cls) /\ IsPrefix(p \o Front(out'.ret), r)
-            IN  \A r \in DOMAIN T : ~rebuilt(r) => (r \in DOMAIN T2 /\ RegOf(T2, r) = RegOf(T, r))]_vars
+         /\ DOMAIN T2 = DOMAIN T /\ \A r \in DOMAIN T : RegOf(T2, r) = RegOf(T, r) /\ T2[r].cls = T[r].cls]_vars
 
 DisabledAppliesNothing ==
   [][act'.op = "calldis" =>
